@@ -113,32 +113,42 @@ def run(ctx):
         ctx.coverage["faithful_model_violates_age"] = r["violated"]
 
     # ---- 2./3. binding
-    backends = ["memory", "pebble"] if thorough else ["memory"]
     new_state = [False, True]
     n_conf = {"r1": 100, "r0": 100, "r3": 60, "r20": 20} if thorough else {"r1": 22, "r0": 22, "r3": 14, "r20": 5}
     n_enum = {"r1": 25, "r0": 25, "r3": 15, "r20": 0} if thorough else {"r1": 6, "r0": 6, "r3": 4, "r20": 0}
-    enum_backends = {"r1": ["memory"], "r0": backends, "r3": ["memory"], "r20": ["memory"]}
+    # Pebble (thorough): every trial opens and closes a database directory: a slice only
+    n_pebble_conf = {"r1": 20, "r0": 20, "r3": 10}
+    n_pebble_enum = {"r0": 4, "r1": 3}
     total_conf = total_enum = 0
     for i, sc in enumerate(SCEN):
         txt, c = cfg_text(sc, faithful, interrupts=True, mbt=True)
         bs = ctx.tlc_simulate("chain", "PruneMBT.tla", "sim.cfg", depth=30 * n_conf[sc], seed=ctx.seed * 100 + i,
                               files={"sim.cfg": txt}, timeout=900, max_behaviours=n_conf[sc])
         total_conf += len(bs)
-        res = engine(ctx, binary, "TestPruneConform",
-                             {"consts": c, "behaviours": bs, "newState": new_state, "backends": backends}, timeout=3000)
-        ctx.absorb(res, "prune", "TestPruneConform")
-        vlib.log("engine TestPruneConform %s: %d behaviours, %.0fs" % (sc, len(bs), res["_wall_s"]))
+        runs = [("memory", bs)]
+        if thorough and sc in n_pebble_conf:
+            runs.append(("pebble", bs[:n_pebble_conf[sc]]))
+        for be, part in runs:
+            res = engine(ctx, binary, "TestPruneConform",
+                         {"consts": c, "behaviours": part, "newState": new_state, "backends": [be]}, timeout=3000)
+            ctx.absorb(res, "prune", "TestPruneConform")
+            vlib.log("engine TestPruneConform %s %s: %d behaviours, %.0fs" % (sc, be, len(part), res["_wall_s"]))
         if n_enum[sc]:
             txt, c = cfg_text(sc, faithful, interrupts=False, mbt=True)
             bs = ctx.tlc_simulate("chain", "PruneMBT.tla", "ops.cfg", depth=30 * n_enum[sc], seed=ctx.seed * 100 + 50 + i,
                                   files={"ops.cfg": txt}, timeout=900, max_behaviours=n_enum[sc])
             bs = [b for b in bs if any(s["a"]["name"] == "PruneStep" for s in b)]
             total_enum += len(bs)
-            if bs:
+            runs = [("memory", bs)]
+            if thorough and sc in n_pebble_enum:
+                runs.append(("pebble", bs[:n_pebble_enum[sc]]))
+            for be, part in runs:
+                if not part:
+                    continue
                 res = engine(ctx, binary, "TestPruneEnum",
-                                     {"consts": c, "behaviours": bs, "newState": new_state, "backends": enum_backends[sc]}, timeout=3000)
+                             {"consts": c, "behaviours": part, "newState": new_state, "backends": [be]}, timeout=3000)
                 ctx.absorb(res, "prune", "TestPruneEnum")
-                vlib.log("engine TestPruneEnum %s: %d sequences, %.0fs" % (sc, len(bs), res["_wall_s"]))
+                vlib.log("engine TestPruneEnum %s %s: %d sequences, %.0fs" % (sc, be, len(part), res["_wall_s"]))
     ctx.coverage["behaviours_conformance"] = total_conf
     ctx.coverage["sequences_interruption_enumerated"] = total_enum
     ctx.assumptions += [
